@@ -179,8 +179,14 @@ class GWCSAPIMixin(BaseHighLevelWCS, BaseLowLevelWCS):
     def array_shape(self, value):
         if value is None:
             self._pixel_shape = None
-        else:
-            self._pixel_shape = value[::-1]
+            return
+        wcs_naxes = self.input_frame.naxes
+        if len(value) != wcs_naxes:
+            raise ValueError("The number of data axes, "
+                             "{}, does not equal the "
+                             "shape {}.".format(wcs_naxes, len(value)))
+
+        self._pixel_shape = tuple(value[::-1])
 
     @property
     def pixel_bounds(self):
